@@ -99,18 +99,22 @@ class C09(Check):
         res = self.pool.run_all([{"flavour": "ser-asan", "kind": "c09count", "args": {"obj": o}, "timeout": 60} for o in range(NMENU)])
         for o, r in enumerate(res):
             if r["ok"]:
-                counts[o] = (r["res"]["faults"], r["res"]["obj_bytes"], r["res"]["smoke"])
+                counts[o] = (r["res"]["faults"], r["res"]["obj_bytes"], r["res"]["smoke"], r["res"]["pairs"])
         self.stats["objects"] = len(counts)
         jobs = []
         # quick: a rotating third of the enumeration per object (by seed); thorough: all
         prio = []
-        for o, (nf, nbytes, nsmoke) in counts.items():
+        for o, (nf, nbytes, nsmoke, npairs) in counts.items():
             stale = (o + 1) % NMENU
-            # the smoke set runs completely in every pass, first
+            # the smoke set and the coupled-array pairs run completely in every pass, first
             for prec in (64, 32):
                 for s0 in range(0, nsmoke, CHUNK):
                     a = {"obj": o, "stale": stale, "set": "smoke", "from": s0, "to": min(nsmoke, s0 + CHUNK), "precision": prec}
                     prio.append({"flavour": "ser-asan", "kind": "c09", "args": a, "timeout": 8})
+                if prec == 64 or o % 2 == 0:
+                    for s0 in range(0, npairs, CHUNK):
+                        a = {"obj": o, "stale": stale, "set": "pairs", "from": s0, "to": min(npairs, s0 + CHUNK), "precision": prec}
+                        prio.append({"flavour": "ser-asan", "kind": "c09", "args": a, "timeout": 8})
             for prec in (64, 32):
                 starts = list(range(0, nf, CHUNK))
                 if prec == 32:
@@ -196,7 +200,7 @@ class C09(Check):
                     "fault actually changed the stored bytes (not_applied cases are excluded) and the import returned",
             "samples": samples or [{"note": "see fault_kinds_fired"}],
             "fault_kinds_fired": self.fired, "import_statuses": self.statuses, "totals": self.stats,
-            "enumeration": {str(o): {"single_faults": c[0], "obj_text_bytes": c[1], "smoke_faults_always_run": c[2]} for o, c in counts.items()},
+            "enumeration": {str(o): {"single_faults": c[0], "obj_text_bytes": c[1], "smoke_faults_always_run": c[2], "coupled_array_pairs_always_run": c[3]} for o, c in counts.items()},
             "exhaustive": False,
             "components": {"real": "manifold library (MeshGL/MeshGL64 ingest, ReadOBJ/WriteOBJ, all consuming operations)",
                            "stub": "storage between export and import (SimStore byte images, SimStreambuf); oneTBB runtime in par-asan"},
